@@ -195,9 +195,11 @@ GovernedRefs(G, ri) ==
         \cup (IF RightRec(G, n, ri) THEN {Opnds(G, n)[Len(Opnds(G, n))]} ELSE {})
         : i \in DOMAIN C(G, b)}
 
-LocalFollow(G, Fo, ri) ==
+\* narrow = TRUE: only references from other rules count (what the pinned implementation does;
+\* used to classify a missing report as the known "in-rule self reference" finding)
+LocalFollowN(G, Fo, Own, ri, narrow) ==
   LET nm == G.rules[ri].name IN
-  UNION {Fo[x] : x \in RefsTo(G, nm) \ GovernedRefs(G, ri)}
+  UNION {Fo[x] : x \in {y \in RefsTo(G, nm) \ GovernedRefs(G, ri) : ~narrow \/ Own[y] # ri}}
   \cup (IF nm = G.start THEN {EOFT} ELSE {})
   \cup (IF nm \in PartNames(G) THEN {MarkOf(G, nm)} ELSE {})
 
@@ -212,9 +214,14 @@ AltPairsMay(G, Pd, brs) ==
       ~Guarded(G, brs[i]) /\
       \E j \in DOMAIN brs : j > i /\ Pd[brs[i]] \cap Pd[brs[j]] # {}}}
 
-PrattOpPairs(G, Pd, Fo, ri, strict) ==
+LocalFollow(G, Fo, Own, ri) == LocalFollowN(G, Fo, Own, ri, FALSE)
+
+PrattOpPairsN(G, Pd, Fo, Own, ri, strict, narrow) ==
   LET brs == LeftBranches(G, ri)
-      lf  == LocalFollow(G, Fo, ri) IN
+      \* end markers are not operators: a nullable "operator" must not be required to
+      \* be reported because of them, and may be reported because of any of them
+      lf0 == LocalFollowN(G, Fo, Own, ri, narrow)
+      lf  == IF strict THEN lf0 \ (AllMarks(G) \cup {EOFT}) ELSE lf0 \cup AllMarks(G) \cup {EOFT} IN
   {<<"E012", OperatorOf(G, brs[i])>> : i \in {i \in DOMAIN brs :
       /\ Len(Opnds(G, brs[i])) >= 2
       /\ ~Guarded(G, brs[i])
@@ -223,6 +230,12 @@ PrattOpPairs(G, Pd, Fo, ri, strict) ==
                /\ (strict => ~Guarded(G, brs[j]))
                /\ Pd[OperatorOf(G, brs[i])] \cap Pd[OperatorOf(G, brs[j])] # {}}}
 
+PrattOpPairs(G, Pd, Fo, Own, ri, strict) == PrattOpPairsN(G, Pd, Fo, Own, ri, strict, FALSE)
+
+\* E012 pairs required even under the narrow reading of "may follow the rule"
+NarrowE012(G, Pd, Fo, Own) ==
+  UNION {IF IsPrattRule(G, ri) THEN PrattOpPairsN(G, Pd, Fo, Own, ri, TRUE, TRUE) ELSE {} : ri \in RuleIds(G)}
+
 NodeConflicts(G, Pd, Fo, Own, n, strict) ==
   LET k == K(G, n)  c == C(G, n) IN
   CASE k = "alt" ->
@@ -230,7 +243,7 @@ NodeConflicts(G, Pd, Fo, Own, n, strict) ==
          IF ri # 0 /\ IsPrattRule(G, ri)
          THEN (IF strict THEN AltPairsMust(G, Pd, NudBranches(G, ri))
                          ELSE AltPairsMay(G, Pd, NudBranches(G, ri)))
-              \cup PrattOpPairs(G, Pd, Fo, ri, strict)
+              \cup PrattOpPairs(G, Pd, Fo, Own, ri, strict)
          ELSE IF strict THEN AltPairsMust(G, Pd, c) ELSE AltPairsMay(G, Pd, c)
     [] k \in {"star", "plus"} ->
          IF c # <<>> /\ ~Guarded(G, c[1]) /\ Pd[c[1]] \cap Fo[n] # {}
